@@ -113,7 +113,9 @@ def _apply_ghost(ghost, op, inds=None):
     elif kind == "cn":
         n = op[2]
         g = ghost[op[1]]
-        if n >= len(g):
+        if n == 0:
+            del g[:]  # clear(0) is a full clear (a count of zero means "no count given")
+        elif n >= len(g):
             del g[:]
         else:
             del g[-n:]
@@ -148,7 +150,7 @@ def _run(ops, width, initial_sections, check_from):
         partial = False
         res = {"ok": True, "step": None, "what": "", "cls": "", "state": None}
         for i, op in enumerate(ops):
-            if op[0] == "cn":
+            if op[0] == "cn" and op[2] != 0:
                 partial = True
             try:
                 _apply_real(out, sections, op)
@@ -337,7 +339,7 @@ def _random_ops(rng, width, length, partial, max_sections):
             wide = wide or any(n > width for n in spec)
             ops.append((rng.choice(["w", "w", "o"]), s, text))
         elif r < 0.75:
-            ops.append(("c", s))
+            ops.append(("c", s) if rng.random() < 0.8 else ("cn", s, 0))
         elif partial:
             ops.append(("cn", s, rng.choice([1, 1, 2, 3, 4])))
         else:
